@@ -341,6 +341,14 @@ pub mod fs {
             }
         }
 
+        pub fn try_lock(&self) -> Result<(), std::fs::TryLockError> {
+            self.inner.try_lock()
+        }
+
+        pub fn unlock(&self) -> io::Result<()> {
+            self.inner.unlock()
+        }
+
         pub fn sync_all(&self) -> io::Result<()> {
             self.sync_data()
         }
